@@ -8,6 +8,8 @@ KeysDef == StringsUpTo({97, 255}, 2)
 \* three values spanning a pack-size boundary
 ValsDef == {0, 1, 256}
 ValsSet == {0}
+\* thorough: three symbols (13 keys)
+KeysBig == StringsUpTo({97, 98, 255}, 2)
 
 \* hide the history variables: they do not influence the algorithm
 View == <<stack, emitted, cache, evict, last, acc, pc, tgt, pend, sfx, sout>>
